@@ -759,10 +759,129 @@ func (r *lsRepl) final(ops []lsOp) string {
 	return ""
 }
 
+// ---- writer protocol over the in-flight table and the identifier pool (C03) ----
+// The harness re-implements, around the real ack.Queue and the real pool, exactly what
+// writer.sendQoS1 does with them: allocate an identifier, register the exchange with a callback
+// that re-registers it when it expires while the session is alive and releases the identifier
+// otherwise. Judged: each exchange ends in exactly one release, never a retransmission after
+// its acknowledgement was accepted, and the pool drains back to full.
+type lsRetx struct {
+	q     ack.Queue
+	pool  wasp.VerifMIDPool
+	size  int
+	mu    sync.Mutex
+	alive map[string]bool
+	gens  []*retxGen
+	lastT map[int]*retxGen // last exchange started by each task
+	bad   string
+}
+type retxGen struct {
+	sess      string
+	mid       int32
+	acked     int
+	released  int
+	resent    int
+	resentAfterAck int
+}
+
+func (x *lsRetx) register(g *retxGen, deadlineMs int64) error {
+	pkt := &packet.Publish{Header: &packet.Header{Qos: 1}, MessageId: g.mid}
+	return x.q.Insert(g.sess, pkt, t0.Add(time.Duration(deadlineMs)*time.Millisecond), func(expired bool, stored, received packet.Packet) {
+		x.mu.Lock()
+		alive := x.alive[g.sess]
+		if expired && alive {
+			g.resent++
+			if g.acked > 0 {
+				g.resentAfterAck++
+			}
+			x.mu.Unlock()
+			x.register(g, deadlineMs+3000)
+			return
+		}
+		if !expired {
+			g.acked++
+		}
+		g.released++
+		x.mu.Unlock()
+		x.pool.Put(g.mid)
+	})
+}
+func (x *lsRetx) exec(s *Step) string {
+	switch s.K {
+	case "send":
+		mid := x.pool.Get()
+		if mid < 1 {
+			return "none"
+		}
+		g := &retxGen{sess: s.S, mid: mid}
+		x.mu.Lock()
+		x.gens = append(x.gens, g)
+		x.lastT[s.C] = g
+		x.mu.Unlock()
+		if err := x.register(g, s.J); err != nil {
+			x.mu.Lock()
+			g.released++
+			x.mu.Unlock()
+			x.pool.Put(mid)
+			return "err"
+		}
+		return "ok"
+	case "acklast":
+		x.mu.Lock()
+		g := x.lastT[s.C]
+		x.mu.Unlock()
+		if g == nil {
+			return "-"
+		}
+		if x.q.Ack(g.sess, &packet.PubAck{Header: &packet.Header{}, MessageId: g.mid}) != nil {
+			return "err"
+		}
+		return "ok"
+	case "sweep":
+		x.q.Expire(t0.Add(time.Duration(s.J) * time.Millisecond))
+	case "kill":
+		x.mu.Lock()
+		x.alive[s.S] = false
+		x.mu.Unlock()
+	}
+	return ""
+}
+func (x *lsRetx) init() string                              { return "" }
+func (x *lsRetx) step(state, in, out string) (bool, string) { return true, state }
+func (x *lsRetx) final(ops []lsOp) string {
+	x.mu.Lock()
+	for k := range x.alive {
+		x.alive[k] = false
+	}
+	x.mu.Unlock()
+	x.q.Expire(t0.Add(1000 * time.Hour))
+	x.mu.Lock()
+	defer x.mu.Unlock()
+	for i, g := range x.gens {
+		if g.resentAfterAck > 0 {
+			return fmt.Sprintf("exchange %d (session %s, id %d) was retransmitted %d times after its acknowledgement had been accepted", i, g.sess, g.mid, g.resentAfterAck)
+		}
+		if g.released != 1 {
+			return fmt.Sprintf("exchange %d (session %s, id %d) released its identifier %d times (acknowledged %d times, retransmitted %d times)", i, g.sess, g.mid, g.released, g.acked, g.resent)
+		}
+	}
+	free := 0
+	for i := 0; i < x.size+2; i++ {
+		if x.pool.Get() < 1 {
+			break
+		}
+		free++
+	}
+	if free != x.size {
+		return fmt.Sprintf("all sessions are gone and every exchange resolved, yet the pool has %d free identifiers of %d", free, x.size)
+	}
+	return ""
+}
+
 // ---------------------------------------------------------------------------------------
 // running a case
 
-var lsObjects = []string{"registry", "idpool", "retained", "subscriptions", "sesstopics", "ackq", "repl"}
+var lsObjects = []string{"registry", "idpool", "retained", "subscriptions", "sesstopics", "ackq", "repl", "retx"}
 
 func buildLsObject(c *Case) lsObject {
 	switch lsObjects[int(c.knob("obj", 0))%len(lsObjects)] {
@@ -780,6 +899,8 @@ func buildLsObject(c *Case) lsObject {
 		return &lsSessTopics{s: s}
 	case "ackq":
 		return &lsAckq{q: ack.NewQueue(), fired: map[string]int{}, exp: map[string]int{}}
+	case "retx":
+		return &lsRetx{q: ack.NewQueue(), pool: wasp.VerifNewMIDPool(1, 8), size: 8, alive: map[string]bool{"s1": true, "s2": true}, lastT: map[int]*retxGen{}}
 	default:
 		return newLsRepl()
 	}
@@ -987,6 +1108,21 @@ func genLsOps(r *Rand, objIdx int, c *Case, nt int, perTask int) {
 				}
 			}
 		}
+	case "retx":
+		for i := 0; i < nt; i++ {
+			for n := 0; n < perTask; n++ {
+				switch r.Intn(8) {
+				case 0, 1, 2:
+					c.Steps = append(c.Steps, Step{K: "send", C: i, S: r.Pick([]string{"s1", "s2"}), J: c04Lattice[r.Intn(len(c04Lattice))]})
+				case 3, 4:
+					c.Steps = append(c.Steps, Step{K: "acklast", C: i})
+				case 5, 6:
+					c.Steps = append(c.Steps, Step{K: "sweep", C: i, J: []int64{900, 1600, 2500, 4200, 7500}[r.Intn(5)]})
+				default:
+					c.Steps = append(c.Steps, Step{K: "kill", C: i, S: r.Pick([]string{"s1", "s2"})})
+				}
+			}
+		}
 	default: // repl: keys are tagged with the task index so that distinct-key effects are unambiguous
 		for i := 0; i < nt; i++ {
 			for n := 0; n < perTask; n++ {
@@ -1040,7 +1176,10 @@ func init() {
 	real := []string{"wasp.lockedMapState, wasp.simpleMidPool, wasp/ack.Queue + expiration lists, topics.Store, subscriptions.Tree, wasp/distributed.State, wasp/sessions.Session (all instrumented with a yield before every statement and scheduler-aware try-locks)", "Go race detector (ThreadSanitizer)"}
 	stub := []string{"goroutine scheduling: tasks released one at a time by the simulator through raw pipe syscalls (no happens-before edges of its own)", "gotomic.Hash, memberlist.TransmitLimitedQueue, protobuf: not instrumented, atomic steps between yields"}
 	assume := []string{"the race detector keeps a bounded access history per location", "linearizability is checked with porcupine for histories of up to 24 operations; a timed-out check is inconclusive and never reported", "the in-flight table and the replicated state are judged by invariants (exactly-once resolution, distinct-key effects present) plus the race detector, not by a full linearizability model"}
-	all := []int{0, 1, 2, 3, 4, 5, 6}
+	all := []int{0, 1, 2, 3, 4, 5, 6, 7}
+	register(&Check{ID: "C03", Level: "exploration", Build: "lockstep", Gen: genLockstep([]int{7}), Run: runLockstep, QuickS: 15, ThoroughS: 200,
+		Rule: "concurrent variant: 2-4 tasks driving the writer's protocol (allocate an identifier, register with the retransmit-or-release callback, acknowledge, sweep, end a session) on the real in-flight table and pool under PRNG statement-level schedules, race detector on; each exchange releases its identifier exactly once, is never retransmitted after its acknowledgement was accepted, and the pool drains back to full",
+		Real: real, Stub: append([]string{"writer.sendQoS1's use of the table and the pool is re-implemented by the harness around the real objects (the writer's own methods are unexported)"}, stub...), Assume: assume})
 	register(&Check{ID: "C20", Level: "exploration", Build: "lockstep", Gen: genLockstep(all), Run: runLockstep, QuickS: 40, ThoroughS: 600,
 		Rule: "a case = 2-4 tasks with 1-6 operations each on one shared object (session registry, identifier pool, retained trie, subscription trie, per-session filter list, in-flight table, replicated state) plus the PRNG schedule taken at every statement-level yield; non-trivial when >=2 tasks and >=2 operations; distinct by hash of (operations, schedule)",
 		Real: real, Stub: stub, Assume: assume})
